@@ -140,6 +140,12 @@ def mk_index(rng, s, force_unique=None, negative=True):
         m = rng.randint(1, 2 * n)
         lo = -n if negative else 0
         idx = [rng.randint(lo, n - 1) for _ in range(m)]
+        if not force_unique and negative and n >= 2 and rng.random() < 0.4:
+            # negative aliases without any literally repeated value: k and k - n select the same element
+            k0 = rng.randrange(n)
+            others = [p for p in rng.sample(range(n), rng.randint(0, n - 1)) if p != k0]
+            idx = [k0, k0 - n] + others
+            rng.shuffle(idx)
         if force_unique is True:
             m = rng.randint(1, n)
             pos = rng.sample(range(n), m)
@@ -492,13 +498,22 @@ PATTERNS = [pat_inverse_pair, pat_lazy_inverse_pair, pat_rotations, pat_rot_hwp,
             pat_block_single, pat_block_nested, pat_sandwich, pat_identity, pat_scalars]
 
 
-def gen_chain(rng: random.Random, s, length: int, depth: int, p_pattern: float = 0.5):
+def gen_chain(rng: random.Random, s, length: int, depth: int, p_pattern: float = 0.5, force_pattern=None):
     """A well-typed chain in *application order* starting from structure s, with planted patterns.
-    Returns (operators in application order, names of planted patterns)."""
+    Returns (operators in application order, names of planted patterns).  `force_pattern` (a pattern function)
+    is planted once at a random position, if it applies to the structure reached there."""
     ops: list = []
     planted: list[str] = []
     cur = s
-    while len(ops) < length:
+    force_at = rng.randint(0, max(0, length - 1)) if force_pattern is not None else -1
+    while len(ops) < length or (force_pattern is not None and force_pattern.__name__ not in planted and len(ops) < length + 4):
+        if force_pattern is not None and len(ops) >= force_at and force_pattern.__name__ not in planted:
+            got = force_pattern(rng, cur)
+            if got is not None:
+                ops.extend(got)
+                planted.append(force_pattern.__name__)
+                cur = got[-1].out_structure()
+                continue
         if rng.random() < p_pattern:
             pat = rng.choice(PATTERNS)
             got = pat(rng, cur)
@@ -513,11 +528,39 @@ def gen_chain(rng: random.Random, s, length: int, depth: int, p_pattern: float =
     return ops, planted
 
 
-def gen_expression(rng: random.Random, max_len: int = 6, depth: int = 2):
+PATTERN_STRUCTURES = {
+    'pat_rotations': 'stokes', 'pat_rot_hwp': 'stokes', 'pat_pol_hwp': 'stokes', 'pat_moveaxis': 'mat',
+    'pat_sandwich': 'matlist', 'pat_lazy_inverse_pair': 'vec', 'pat_block_diag_diag': 'container',
+}
+
+
+def structure_for_pattern(rng: random.Random, pattern):
+    """a structure on which the pattern can be planted"""
+    kind = PATTERN_STRUCTURES.get(pattern.__name__)
+    if kind == 'stokes':
+        k = rng.choice(['I', 'QU', 'IQU', 'IQUV'])
+        return StokesPyTree.class_for(k).structure_for(rng.choice([(2,), (3,), (2, 2)]), F32)
+    if kind == 'mat':
+        return S(*rng.choice([(2, 3), (3, 2), (2, 2)]))
+    if kind == 'matlist':
+        return [S(2, 3), S(2, 3)]
+    if kind == 'vec':
+        return S(rng.choice([3, 4, 5]))
+    if kind == 'container':
+        n = rng.choice([2, 3])
+        return rng.choice([[S(n), S(n)], {'b': S(n), 'a': S(n, 2)}])
+    for _ in range(20):
+        s = random_structure(rng)
+        if pattern(random.Random(rng.random()), s) is not None:
+            return s
+    return random_structure(rng)
+
+
+def gen_expression(rng: random.Random, max_len: int = 6, depth: int = 2, force_pattern=None):
     """A composite expression; returns (operator, info dict)."""
-    s = random_structure(rng)
+    s = random_structure(rng) if force_pattern is None else structure_for_pattern(rng, force_pattern)
     length = rng.randint(1, max_len)
-    ops, planted = gen_chain(rng, s, length, depth)
+    ops, planted = gen_chain(rng, s, length, depth, force_pattern=force_pattern)
     chain = list(reversed(ops))   # CompositionOperator lists the last-applied operator first
     if len(chain) == 1:
         expr = chain[0]
